@@ -76,7 +76,7 @@ def generate(repo, tag, force=False):
         pt, bad2 = tr.enum_names(t, "GetPtrs")
         sr, bad3 = tr.enum_names(t, "GetStringRefs")
         enums[bname] = (sorted(cr | pt), sorted(sr), sorted(set(bad1 + bad2 + bad3)))
-        blocks.append((bname, t, ir, nif2ir._seq(tr.defaults(t))))
+        blocks.append((bname, t, ir, nif2ir._seq(tr.defaults(t, nif2ir.loaded_names(ir)))))
         cover[bname] = sorted(set(acc))
     # ids of field names, locals and block types are shared with the reference tree's table, so that the
     # two generated files can be compared structurally (C08)
